@@ -79,3 +79,75 @@ def check_ascii_regex(ctx, rule: str, module_key: str, const_name: str, why: str
         ctx.fail(rule, m, v, f"{const_name} = /{pat.value}/ admits non-ASCII text: {'; '.join(sorted(set(reasons)))}. {why}", construct=f"{const_name} admits ASCII only")
     else:
         ctx.ok(rule, m, v, what=what)
+
+
+HEX = set("0123456789abcdefABCDEF")
+
+
+def hex_classes(pattern: str, flags: int = 0) -> List[set]:
+    """ASCII members of every character class of ``pattern`` that contains all decimal digits and at least one hex letter."""
+    found: List[set] = []
+    fold = bool(flags & re.IGNORECASE)
+
+    def walk(items) -> None:
+        for op, av in items:
+            name = str(op)
+            if op is _sre_c.IN:
+                if av and av[0][0] is _sre_c.NEGATE:
+                    continue
+                members = set()
+                for o2, a2 in av:
+                    if o2 is _sre_c.LITERAL and a2 < 128:
+                        members.add(chr(a2))
+                    elif o2 is _sre_c.RANGE:
+                        members.update(chr(c) for c in range(a2[0], min(a2[1], 127) + 1))
+                    elif o2 is _sre_c.CATEGORY and str(a2) == "CATEGORY_DIGIT":
+                        members.update("0123456789")
+                if fold:
+                    members |= {c.lower() for c in members} | {c.upper() for c in members}
+                if set("0123456789") <= members and members & set("abcdefABCDEF"):
+                    found.append(members)
+            elif op in (_sre_c.MAX_REPEAT, _sre_c.MIN_REPEAT):
+                walk(av[2])
+            elif op is _sre_c.SUBPATTERN:
+                walk(av[3])
+            elif op is _sre_c.BRANCH:
+                for alt in av[1]:
+                    walk(alt)
+            elif name in ("ASSERT", "ASSERT_NOT"):
+                walk(av[1])
+
+    walk(_sre_parse.parse(pattern, flags))
+    return found
+
+
+def check_hex_classes(ctx, rule: str, module, floor: int) -> None:
+    """Every character class that is meant for hexadecimal digits (all of 0-9 plus some of a-f / A-F) admits all 22 of them: the
+    front end accepts escapes in either case, so a class that lacks one case leaves such an escape untranslated."""
+    n = 0
+    for node in ast.walk(module.tree):
+        if not (isinstance(node, ast.Call) and (dotted_of(node.func) or "") in ("re.compile", "re.sub", "re.match", "re.fullmatch", "re.search", "re.finditer", "re.findall") and node.args):
+            continue
+        a = node.args[0]
+        if not (isinstance(a, ast.Constant) and isinstance(a.value, str)):
+            continue
+        flags = 0
+        for extra in list(node.args[1:]) + [k.value for k in node.keywords if k.arg == "flags"]:
+            if "IGNORECASE" in ast.unparse(extra) or ast.unparse(extra).endswith("re.I"):
+                flags |= re.IGNORECASE
+        try:
+            classes = hex_classes(a.value, flags)
+        except re.error:
+            continue
+        for members in classes:
+            n += 1
+            missing = sorted(HEX - members)
+            what = f"{module.relpath.split('aas_core_codegen/')[-1]}: hex-digit class of {a.value!r} admits both cases"
+            where = (module.relpath, "<module>")
+            if missing:
+                ctx.fail(rule, where, node, f"a character class of the regular expression {a.value!r} is used for hexadecimal digits but lacks {''.join(missing)!r}: an escape written with those digits (accepted by the pattern parser) is not recognised here and reaches the output untranslated", construct=what)
+            else:
+                ctx.ok(rule, where, node, what=what)
+    from ..model import AnalysisError
+    if n < floor:
+        raise AnalysisError(f"anchor vanished: {module.relpath} has {n} hexadecimal character classes in its regular expressions, expected at least {floor}")
